@@ -85,7 +85,9 @@ def oracle_ledgers(h):
             in_claim = done_b and c.round >= cfg[2]
             first = bool(rng) and (V(vb, 'claimed', u) or [0])[0] == 0
             paused = (V(vb, 'paused') or [0])[0] == 1 and v == 'gt2'
-            if in_claim and first and not paused:
+            # a blacklisted owner of a (necessarily empty) surviving range has no ticket left: no claim is owed to them (C10)
+            barred = v not in ('gt1', 'gt2') and (V(vb, 'blacklisted', u) or [0])[0] == 1
+            if in_claim and first and not paused and not barred:
                 wins = len(V(vb, 'winIds', u) or [])
                 conf = V(vb, 'confirmed', u)[0]
                 if not ok:
@@ -607,6 +609,10 @@ def oracle_blacklist(h):
     for i, c, r, vb, va, b0, b1 in h.steps():
         if vb is None or r['status'] != 'ok' or va is None:
             continue
+        if c.ep in ('confirm', 'confirmNft', 'claim') and c.caller in h.addrs and (V(vb, 'blacklisted', c.caller) or [0])[0] == 1:
+            # a blacklisted participant can neither confirm, nor enter the NFT draw, nor claim anything
+            if c.ep != 'claim' or r['bal']:
+                out.append(viol('C10', i, 'blocked', '%s accepted from blacklisted %d (balances moved: %r)' % (c.ep, c.caller, bool(r['bal']))))
         if c.ep in ('blacklist', 'refund'):
             price = V(vb, 'price')
             users = c.args[1:]
